@@ -330,5 +330,5 @@ Proof.
 Qed.
 
 (* The loop's fuel (length of the engine script + 1) cannot run out before the script does: every round consumes one engine
-   event. Bad 140 is excluded by the statements above (they speak about Ok results); a model run that ended in Bad 140 would
+   event. Bad 145 is excluded by the statements above (they speak about Ok results); a model run that ended in Bad 145 would
    show up in the correspondence check as a case the implementation completes and the model calls malformed. *)
